@@ -302,6 +302,11 @@ pub fn run(args: &Args, rep: &mut Report) {
             if let Ok(g) = crate::fatck::geo_of(&img) {
                 let v = *rng.pick(&[1u8, 2, 3, 0x80, 0x84, 0x41, 0xFE]);
                 img.set_u8(g.status_off, v);
+                // the status byte does not depend on the extended boot signature that follows it (0x28: only the
+                // serial number is valid, 0x00: no extended fields at all)
+                if rng.chance(1, 3) {
+                    img.set_u8(g.status_off + 1, *rng.pick(&[0x28u8, 0x00, 0x29]));
+                }
             }
         }
         let mut scfg = SessCfg::all(unicode_build());
